@@ -11,6 +11,7 @@ import Driver.CtxKey
 import Driver.Formats
 import Driver.Blowfish
 import Driver.Scrypt
+import Driver.ShaCrypt
 /-
 Line protocol driver: `<suite> <op> <args…>` per input line, one result line out.
 Compiled (`lean_exe modeldrv`); nothing imported here touches Mathlib.
@@ -30,6 +31,7 @@ def dispatch (line : String) : String :=
   | "fmt" :: rest => Driver.Formats.handle rest
   | "bf" :: rest => Driver.Blowfish.handle rest
   | "scrypt" :: rest => Driver.Scrypt.handle rest
+  | "shac" :: rest => Driver.ShaCrypt.handle rest
   | _ => Driver.bad
 
 partial def loop (h : IO.FS.Stream) (out : IO.FS.Stream) : IO Unit := do
